@@ -12,8 +12,8 @@
 (*     5  <F0d> comment row, then a blank line (detached from the clause)  *)
 (*    10  <F0>  comment row                   1010 <G0> comment row        *)
 (*    20  package clause                      1020 package clause          *)
-(*    30  <D1>  comment row                   1040 func fn4 (...) {        *)
-(*    40  func fn1(...) {                     1060   stmt        (b1)      *)
+(*    30  <D1>  comment row                   1040 func fn4 (...) { <TF4>  *)
+(*    40  func fn1(...) {        <TF1>        1060   stmt        (b1)      *)
 (*    50  <S11> comment row                   1070 }                       *)
 (*    60  stmt1                  <T11>                                     *)
 (*    70  <S12> comment row                                                *)
@@ -45,6 +45,8 @@
 (* (a comment trailing the last line of a top-level declaration is applied *)
 (* to the next declaration - pinned code, D7), OnceConsumesSlot (a         *)
 (* suppressed first use still uses up the once-per-file report),           *)
+(* FuncLineCoversBody (a comment trailing the `func` line makes the        *)
+(* checker skip the whole body),                                           *)
 (* FileDocOnly (only a comment attached to the package clause is           *)
 (* file-level), LastMarkerOnly (see Contained).                            *)
 (***************************************************************************)
@@ -77,12 +79,12 @@ StmtOf(a) == CASE a = "a11" -> 11 [] a \in {"a12", "a12b"} -> 12 [] a = "a13" ->
 Before(a, b, k) == FileOf(PosOf(a, k)) = FileOf(PosOf(b, k)) /\ PosOf(a, k) < PosOf(b, k)
 
 Slots == {"none", "F0", "F0d", "G0", "D1", "D2", "D3", "D4", "D5", "S11", "S12", "S13", "S31", "S41", "E1",
-          "T11", "T12a", "T12b", "T13", "T31", "T41", "TD1", "TD2", "TD5"}
+          "T11", "T12a", "T12b", "T13", "T31", "T41", "TD1", "TD2", "TD5", "TF1", "TF4"}
 SlotPos(s) == CASE s = "F0" -> 10 [] s = "F0d" -> 5 [] s = "G0" -> 1010 [] s = "D1" -> 30 [] s = "D2" -> 140 [] s = "D3" -> 160
                 [] s = "S11" -> 50 [] s = "S12" -> 70 [] s = "S13" -> 100 [] s = "S31" -> 180 [] s = "E1" -> 120
                 [] s = "T11" -> 69 [] s = "T12a" -> 89 [] s = "T12b" -> 99 [] s = "T13" -> 119 [] s = "T31" -> 199
-                [] s = "TD1" -> 139 [] s = "TD2" -> 159 [] s = "D5" -> 1080 [] s = "TD5" -> 1099 [] s = "D4" -> 1030 [] s = "S41" -> 1050 [] s = "T41" -> 1069 [] s = "none" -> 0
-Trailing(s) == s \in {"T11", "T12a", "T12b", "T13", "T31", "T41", "TD1", "TD2", "TD5"}
+                [] s = "TD1" -> 139 [] s = "TD2" -> 159 [] s = "D5" -> 1080 [] s = "TD5" -> 1099 [] s = "D4" -> 1030 [] s = "S41" -> 1050 [] s = "T41" -> 1069 [] s = "TF1" -> 49 [] s = "TF4" -> 1049 [] s = "none" -> 0
+Trailing(s) == s \in {"T11", "T12a", "T12b", "T13", "T31", "T41", "TD1", "TD2", "TD5", "TF1", "TF4"}
 
 \* structure
 DeclSpan(d) == CASE d = 1 -> <<40, 131>> [] d = 2 -> <<150, 158>> [] d = 3 -> <<170, 201>> [] d = 4 -> <<1040, 1071>>
@@ -151,7 +153,7 @@ DeclEndingOnRow(p) == IF \E d \in 1..5 : LineStart(DeclSpan(d)[2]) = LineStart(p
 NextStmt(p, d) == LET ss == {s \in {11, 12, 13, 31, 41} : StmtSpan(s)[1] > p /\ StmtSpan(s)[1] >= DeclSpan(d)[1] /\ StmtSpan(s)[2] <= DeclSpan(d)[2]}
                   IN IF ss = {} THEN 0 ELSE CHOOSE s \in ss : \A t \in ss : StmtSpan(s)[1] <= StmtSpan(t)[1]
 \* code before the comment on its row, inside declaration d
-CodeOnRow(p, d) == \E s \in {11, 12, 13, 31, 41} : StmtSpan(s)[1] < p /\ LineStart(StmtSpan(s)[1]) <= LineStart(p) /\ LineStart(p) <= LineStart(StmtSpan(s)[2])
+CodeOnRow(p, d) == LineStart(DeclSpan(d)[1]) = LineStart(p) \/ \E s \in {11, 12, 13, 31, 41} : StmtSpan(s)[1] < p /\ LineStart(StmtSpan(s)[1]) <= LineStart(p) /\ LineStart(p) <= LineStart(StmtSpan(s)[2])
                                                 /\ StmtSpan(s)[1] >= DeclSpan(d)[1] /\ StmtSpan(s)[2] <= DeclSpan(d)[2]
 
 ClsOf(slot) ==
@@ -194,7 +196,8 @@ InR(r, p) == r[1] <= p /\ p <= r[2]
 Contained(p) == IF "LastMarkerOnly" \in Deviations /\ rng[1] <= rng[2] /\ rng2[1] <= rng2[2] /\ rng[1] <= p /\ rng2[1] <= p
                   THEN (IF rng[1] >= rng2[1] THEN InR(rng, p) ELSE InR(rng2, p))
                   ELSE InR(rng, p) \/ InR(rng2, p)
-Supp2(a) == Contained(PosOf(a, sc.kind)) /\ ListMatches(sc.list, CodeOfKind(sc.kind))
+FuncLine(slot, a) == "FuncLineCoversBody" \in Deviations /\ ((slot = "TF1" /\ DeclOf(a) = 1) \/ (slot = "TF4" /\ DeclOf(a) = 4))
+Supp2(a) == (Contained(PosOf(a, sc.kind)) \/ FuncLine(sc.slot, a) \/ FuncLine(sc.slot2, a)) /\ ListMatches(sc.list, CodeOfKind(sc.kind))
 
 Filter ==
   /\ ph = "filter"
